@@ -236,6 +236,33 @@ static void check09(const std::vector<WOp> &ops, Src &s) {
         } else if (!r) {
             VH_FAIL("C09/w/ret=false-without-error", "call %zu returned false but no error is set; history: %s", i, hist.c_str());
         }
+        // on a latched writer: a binson_parser_to_writer whose parser is fresh / on a scalar / exhausted / in error / on a
+        // container is one more write that must be refused and leave indicator and buffer alone
+        if (latched && (s.u8() & 3) == 1) {
+            static const uint8_t kDoc[] = {0x42, 0x10, 0x07, 0x40, 0x14, 0x01, 'a', 0x44, 0x41, 0x14, 0x02, 'h', 'i', 0x43};
+            static const uint8_t kBad[] = {0x42, 0x10, 0x07, 0x17, 0x43};
+            unsigned pos = s.u8() % 6;
+            Block pd(pos == 4 ? sizeof kBad : sizeof kDoc);
+            memcpy(pd.p, pos == 4 ? kBad : kDoc, pd.n);
+            binson_state pst[4];
+            binson_parser pp;
+            pp.state = pst;
+            pp.max_depth = 4;
+            binson_parser_init_array(&pp, pd.p, pd.n);
+            const char *where = "fresh parser";
+            if (pos >= 1) binson_parser_go_into_array(&pp);
+            if (pos >= 1) { binson_parser_next(&pp); where = "on an integer"; }
+            if (pos == 2 || pos == 3 || pos == 5) { binson_parser_next(&pp); where = "on an object"; }
+            if (pos == 3 || pos == 5) { binson_parser_next(&pp); where = "on a string"; }
+            if (pos == 5) { binson_parser_next(&pp); where = "past the last element"; }
+            if (pos == 4) { binson_parser_next(&pp); where = "parser in error"; }
+            bool r = binson_parser_to_writer(&pp, &w);
+            hist += fmt("to_writer(%s)=%d; ", where, (int)r);
+            st.label("w-latched-to_writer");
+            if (r) VH_FAIL("C09/w/to_writer/ret=true-after-error", "binson_parser_to_writer (%s) returned true after error %s; history: %s", where, err_name(first_err), hist.c_str());
+            if (w.error_flags == BINSON_ERROR_NONE) VH_FAIL("C09/w/to_writer/error-cleared", "binson_parser_to_writer (%s) cleared the error indicator; history: %s", where, hist.c_str());
+            if (memcmp(snap.data(), dst.p, dst.n) != 0) VH_FAIL("C09/w/to_writer/stored-after-error", "binson_parser_to_writer (%s) modified the buffer after error %s; history: %s", where, err_name(first_err), hist.c_str());
+        }
     }
     // reset clears (when it returns true), init clears always
     if (latched && mode != 3) {
